@@ -1481,8 +1481,9 @@ func ruleC13LatestFirstOfOneQuery(c *Ctx) {
 		// the decoded value: the argument of the decoder call whose result is returned
 		first := false
 		why := "no return decodes the query's Items[0]"
+		var rootIs func(v ssa.Value) bool
 		isFirstItem := func(v ssa.Value) bool {
-			// walk: [Lookup] ← load ← IndexAddr(const 0) ← load ← FieldAddr .Items ← Extract(q)
+			// walk: [Lookup] ← load ← IndexAddr(const 0) ← load ← FieldAddr .Items ← the output
 			for k := 0; k < 10; k++ {
 				switch x := v.(type) {
 				case *ssa.Lookup:
@@ -1498,21 +1499,21 @@ func ruleC13LatestFirstOfOneQuery(c *Ctx) {
 					if !isC || kc.ExactString() != "0" || !passesField(x.X, "Items") {
 						return false
 					}
-					root := rootOfPath(x.X)
-					ex, isE := root.(*ssa.Extract)
-					return isE && ex.Tuple == ssa.Value(q)
+					return rootIs(rootOfPath(x.X))
 				case *ssa.Index:
 					kc, isC := constOf(x.Index)
 					if !isC || kc.ExactString() != "0" || !passesField(x.X, "Items") {
 						return false
 					}
-					root := rootOfPath(x.X)
-					ex, isE := root.(*ssa.Extract)
-					return isE && ex.Tuple == ssa.Value(q)
+					return rootIs(rootOfPath(x.X))
 				}
 				return false
 			}
 			return false
+		}
+		rootIs = func(v ssa.Value) bool {
+			ex, isE := resolve(v).(*ssa.Extract)
+			return isE && ex.Tuple == ssa.Value(q)
 		}
 		for _, r := range returnsOf(f) {
 			if len(r.Results) != 2 || isNilValue(returnedValue(r, 0)) {
@@ -1530,6 +1531,47 @@ func ruleC13LatestFirstOfOneQuery(c *Ctx) {
 			for _, a := range dc.Call.Args {
 				if isFirstItem(a) {
 					first = true
+				}
+			}
+			// the whole output handed to a helper of the package that decodes ITS Items[0]
+			if g := staticCallee(dc); !first && g != nil && g.Blocks != nil && g.Pkg == f.Pkg {
+				for k, a := range dc.Call.Args {
+					if !rootIs(a) || k >= len(g.Params) {
+						continue
+					}
+					saved := rootIs
+					p := ssa.Value(g.Params[k])
+					rootIs = func(v ssa.Value) bool { return resolve(v) == p }
+					okAll, any := true, false
+					for _, gr := range returnsOf(g) {
+						if len(gr.Results) != 2 || isNilValue(returnedValue(gr, 0)) {
+							continue
+						}
+						gex, isGE := returnedValue(gr, 0).(*ssa.Extract)
+						if !isGE {
+							okAll = false
+							continue
+						}
+						gdc, isGC := gex.Tuple.(*ssa.Call)
+						if !isGC {
+							okAll = false
+							continue
+						}
+						hit := false
+						for _, ga := range gdc.Call.Args {
+							if isFirstItem(ga) {
+								hit = true
+							}
+						}
+						any = true
+						if !hit {
+							okAll = false
+						}
+					}
+					rootIs = saved
+					if any && okAll {
+						first = true
+					}
 				}
 			}
 			if !first {
